@@ -366,15 +366,21 @@ let gen_sources r ~tier oc =
     emit_source oc "random" (Buffer.contents b)
   done;
   (* pathological sizes: recipes expanded by the runner; the render of the deepest ones is skipped where noted *)
-  let recipe ?(render = true) ?(timeout = 2) name n =
+  let recipe ?(render = true) ?(timeout = 2) ?(maxstack = 0) name n =
     emit oc (Ob ([ "stream", JS "source"; "tag", JS ("deep:" ^ name); "recipe", JS name; "n", JI n; "timeout_s", JI timeout ]
-                 @ (if render then [] else [ "norender", JS "1" ]))) in
+                 @ (if render then [] else [ "norender", JS "1" ])
+                 @ (if maxstack > 0 then [ "maxstack_mb", JI maxstack ] else []))) in
   let depths = if thorough then [ 1000; 10000; 100000 ] else [ 1000; 10000 ] in
   List.iter (fun n ->
     let t = if n >= 100000 then 30 else if n >= 10000 then 10 else 2 in
     List.iter (fun name -> recipe ~timeout:t name n)
       [ "parens"; "arrays"; "hashes"; "unary"; "nots"; "sum"; "concat"; "index"; "attr"; "filters"; "ternary"; "tags"; "text" ];
     List.iter (fun name -> recipe ~timeout:t name (min n 10000)) [ "ifs"; "fors"; "blocks"; "names" ]) depths;
+  List.iter (fun name -> List.iter (fun n -> recipe ~timeout:(if n > 100000 then 30 else 10) name n) (if thorough then [ 1000; 10000; 100000 ] else [ 1000; 10000 ]))
+    [ "ternary-else"; "ternary-tight"; "ternary-cond"; "ternary-short"; "coalesce" ];
+  (* on a 64 MB stack: recursion that no depth limit bounds gives out at a million levels, where the source is 4-8 MB *)
+  List.iter (fun name -> recipe ~timeout:60 ~maxstack:64 ~render:false name 1000000)
+    [ "ternary"; "ternary-else"; "ternary-tight"; "ternary-cond"; "parens"; "arrays"; "unary"; "nots"; "index"; "filters" ];
   recipe ~timeout:10 "manyattrs" 1200; recipe ~timeout:10 "manyattrs" 2500;
   if thorough then begin
     (* where the Go stack (1 GB) gives out: sources of 1-4 MB *)
@@ -479,6 +485,13 @@ let gen_render r ~tier oc =
         "{% set nm = '$' %}{% include nm ignore missing %}{% include nm ~ '.twig' ignore missing %}" ])
     [ "@widgets"; "@"; "@/"; "@a/b"; "@@"; "../x"; "../../etc/passwd"; "/etc/passwd"; ""; " "; "."; ".."; "a//b"; "a/./b"; "sub/real.twig"; "sub/../sub/real.twig"; "./real.twig";
       "real"; "real.twig.twig"; "C:\\x"; "a\\b"; "%00"; "a b"; "h\xc3\xa9"; String.make 300 'n'; "#"; "?x=1"; "a:b"; "~"; "-"; "*" ];
+  (* libraries that load and parse and whose top level fails when they are rendered for the import *)
+  List.iter (fun lib ->
+    List.iter (fun tpl -> emit_render oc "failing-library" (Str_compat.replace_all tpl "$" lib))
+      [ "{% import '$' as f %}{{ f.m() }}"; "{% from '$' import m %}{{ m() }}"; "{% from '$' import m as q %}x"; "{% import '$' as f %}"; "a{% if a %}{% import '$' as f %}{% endif %}b";
+        "{% for i in [1, 2] %}{% import '$' as f %}{{ f.m() }}{% endfor %}"; "{% macro w() %}{% import '$' as f %}{{ f.m() }}{% endmacro %}{{ w() }}"; "{% include '$' %}"; "{% extends '$' %}";
+        "{% block b %}{% from '$' import m %}{{ m() }}{% endblock %}"; "{% import '$' as f %}{% import 'macros' as g %}{{ g.n() }}" ])
+    [ "c05libdiv"; "c05libinc"; "c05libfn"; "c05libfilter"; "c05libidx"; "c05libimp"; "c05libext" ];
   List.iter (fun tpl -> emit_render oc "special" tpl)
     [ "{% macro m() %}{% block b %}x{% endblock %}{% endmacro %}{{ m() }}"; "{% macro m(a) %}<{% block b %}{{ a }}{% endblock %}>{% endmacro %}{{ _self.m(1) }}{{ m(2) }}";
       "{% macro m() %}{% if true %}{% for i in [1] %}{% block b %}x{% endblock %}{% endfor %}{% endif %}{% endmacro %}{% block b %}outer{% endblock %}{{ m() }}";
